@@ -242,9 +242,36 @@ def p_rowseq(at):
     return Maker(mk, desc="list[list[str]] (symbolic number of rows of symbolic length, read only)")
 
 
+# identity sets: `{id(x) for ...}` / `id(p) in ids` (membership only)
+IDSET = ext_sort("IdSet")
+ID_OF = z3.Function("py.id", ET.ELEM, I)
+ID_MEMBER = z3.Function("idset.member", IDSET, I, B)
+
 STRSET = ext_sort("StrSet")
 MEMBER = z3.Function("set.member", STRSET, S, B)
 EMPTYSET = z3.Const("set.empty", STRSET)
+
+
+CONST_SETS: dict = {}       # name of the constant -> (term, members)
+
+
+def const_strset(items):
+    """StrSet term denoting a constant set of strings; its membership definition is instantiated by unfolding."""
+    items = tuple(sorted(items))
+    name = "strset{" + ",".join(items) + "}"
+    if name not in CONST_SETS:
+        CONST_SETS[name] = (z3.Const(name, STRSET), items)
+    return CONST_SETS[name][0]
+
+
+def _member_def(s_, t):
+    if z3.is_const(s_) and s_.decl().name() in CONST_SETS:
+        items = CONST_SETS[s_.decl().name()][1]
+        return [MEMBER(s_, t) == z3.Or([t == lit(k) for k in items] + [z3.BoolVal(False)])]
+    return []
+
+
+define(MEMBER, _member_def, aux=True)
 
 
 def p_strset():
@@ -379,9 +406,16 @@ class C02Executor(Executor):
                 return [(s2, None)]
         return super().binop(st, op, a, b, node, inplace)
 
+    def b_id(self, st, args, kwargs, node):
+        if len(args) == 1 and isinstance(args[0], VExt) and args[0].sort == "Elem":
+            return [(st, VInt(ID_OF(args[0].t)))]          # id() is a function of the object (PY-ALIAS: injective on live objects)
+        return super().b_id(st, args, kwargs, node)
+
     def contains(self, st, container, item, node):
         if isinstance(container, VExt) and container.sort == "StrSet" and isinstance(item, VStr):
             return [(st, VBool(MEMBER(container.t, item.t)))]
+        if isinstance(container, VExt) and container.sort == "IdSet" and isinstance(item, VInt):
+            return [(st, VBool(ID_MEMBER(container.t, ops.int_term(item))))]
         return super().contains(st, container, item, node)
 
     # -- attributes / methods / iteration ---------------------------------------------------
